@@ -87,6 +87,23 @@ def all_cases(shape_names, limit_per_shape=None, rnd=None):
     return out
 
 
+# a slice of the restart-from-a-later-stage cases of the growth item G02, run by C01 / C02 themselves: Controller.initialise(k > 0)
+RESTART_SHAPES = ["stages2", "obs2", "stages3", "obs3"]
+
+
+def restart_cases(shape_names=RESTART_SHAPES):
+    """(sid, shape, oa, dict(start=k)) for every starting stage k > 0 and every outcome assignment; the components of the
+    skipped stages take the representative the model uses (their smallest listed outcome)."""
+    out = []
+    for sid, sn in enumerate(shape_names, 1):
+        nodes = SS.expand(SS.BASE_SHAPES[sn])
+        nstages = max(n["stage"] for n in nodes) + 1
+        for start in range(1, nstages):
+            combos = itertools.product(*[[min(n["outs"])] if n["stage"] < start else n["outs"] for n in nodes])
+            out += [(sid, sn, list(oa), dict(start=start)) for oa in combos]
+    return out
+
+
 POLICIES = [(1, 0.2, 1.0), (3, 0.5, 0.05), (6, 0.8, 1.0), (15, 0.5, 20.0), (60, 0.3, 1.0), (400, 0.5, 0.05),
             (4, 0.95, 0.05), (4, 0.05, 20.0), (2, 0.5, 1.0), (30, 0.9, 1.0),
             # negative burst: internal rx hops are eager, the randomness goes to exits / callbacks / passes
